@@ -351,6 +351,7 @@ SEQ_INTERP = {
     "UNBOX": lambda u: u[1] if isinstance(u, tuple) and len(u) == 2 and u[0] == "box" else (_ for _ in ()).throw(Undefined()),
     "None_U": lambda: NONE,
     "FOI": lambda f: F_ID if f == NONE else f,
+    "FN_IDENTITY": lambda: F_ID,
     "JDUMP": lambda x: ("json", repr(x)),
 }
 
